@@ -1,7 +1,7 @@
 """Rules over the future / stream / sink adapters (C13, C14, C03-R5)."""
 import re
 
-from .core import Prov, place_str, has_origin
+from .core import Prov, place_str, has_origin, root_local, bool_cond_edges
 
 GUARD_TY = re.compile(r"^core::option::Option<fastrace::span::LocalParentGuard>$|^fastrace::span::LocalParentGuard$")
 LOCALSPAN_TY = re.compile(r"^fastrace::local::local_span::LocalSpan$")
@@ -154,7 +154,25 @@ def check_adapter(ctx, facts, fn, rule_prefix, want_scope=True, want_finish=True
                         and "Poll<" in info["ty"]:
                     sw = b
                     break
-            if sw is None or not takes:
+            bool_ready = set()
+            if sw is None:
+                prov2 = prov
+                def on_res(o, name):
+                    return any(v[0] == "call" and re.search(r"task::poll::Poll::<T>::%s$" % name, v[1]) and
+                               root_local(fn, fn.term(v[2])["args"][0])[0] == res for v in o.via)
+                bool_ready |= bool_cond_edges(fn, prov2, lambda o: on_res(o, "is_pending"), False)
+                bool_ready |= bool_cond_edges(fn, prov2, lambda o: on_res(o, "is_ready"), True)
+            if sw is None and bool_ready and takes and cond == "ready":
+                g_ok = fn.guarded(takes, bool_ready)
+                m_ok, wit = fn.must_pass([(a, d) for a, d, _ in bool_ready], takes)
+                ctx.check(g_ok and m_ok, rule_prefix + "R2", fn.path, fn.loc(takes[0]),
+                          "the span is taken on Poll::Ready and only then", "guarded by is_pending()/is_ready() edges %s" % sorted((a, b) for a, b, _ in bool_ready),
+                          "guarded=%s must_pass=%s (witness bb%s)" % (g_ok, m_ok, wit), extra="finish")
+                src = prov.of_operand(fn, fn.term(takes[0])["args"][0])
+                ctx.check(has_origin(src, path_suffix=(".span",)), rule_prefix + "R2", fn.path, fn.loc(takes[0]),
+                          "the value taken is the adapter's span field", str(sorted(o.short() for o in src)[:3]),
+                          "origins %s" % sorted(o.short() for o in src)[:5], extra="field")
+            elif sw is None or not takes:
                 ctx.fail(rule_prefix + "R2", fn.path, fn.span, "the span is finished exactly at completion",
                          "no match on the poll result (%s) or no Option<Span>::take (%s)" % (sw, takes), extra="finish")
             else:
